@@ -6,6 +6,7 @@ import (
 	"fmt"
 	"go/ast"
 	"go/build"
+	"go/build/constraint"
 	"go/importer"
 	"go/parser"
 	"go/token"
@@ -58,7 +59,7 @@ func Load(c *core.Case) *World {
 			continue
 		}
 		// what the go command does not consider part of a package of this module
-		if strings.Contains("/"+name, "/testdata/") || strings.HasPrefix(c.Files[name], "//go:build ignore\n") {
+		if strings.Contains("/"+name, "/testdata/") || !buildConstraintHolds(c.Files[name]) {
 			continue
 		}
 		if nestedModule(c, name) {
@@ -283,4 +284,32 @@ func nestedModule(c *core.Case, name string) bool {
 		}
 	}
 	return false
+}
+
+// buildConstraintHolds evaluates a leading //go:build line the way the go command does in the environment the
+// tools run in (linux/amd64, cgo enabled, gc).
+func buildConstraintHolds(src string) bool {
+	for _, line := range strings.Split(src, "\n") {
+		l := strings.TrimSpace(line)
+		if l == "" {
+			continue
+		}
+		if !strings.HasPrefix(l, "//") {
+			break
+		}
+		if constraint.IsGoBuild(l) {
+			expr, err := constraint.Parse(l)
+			if err != nil {
+				return true
+			}
+			return expr.Eval(func(tag string) bool {
+				switch tag {
+				case "linux", "amd64", "cgo", "unix", "gc":
+					return true
+				}
+				return strings.HasPrefix(tag, "go1.")
+			})
+		}
+	}
+	return true
 }
